@@ -378,6 +378,8 @@ def run_dispatchers(chk):
     chk.floor(R + ":returns", n, 14)
 
 
+import re as _re
+ALLOC_ONLY = _re.compile(r"^(new_node|new_node_t|new_node_with_size_t|alloc|alloc_oneshot|reserve|reserve_additional|resize|resize_grow|grow|append|dup)")
 LABEL_CREATORS = ("new_label_node", "register_label_node", "new_label", "new_named_label", "new_anonymous_label", "new_label_id",
                   "new_named_label_id", "new_label_entry", "new_named_label_entry")
 
@@ -433,10 +435,15 @@ def run_label_after_validation(chk):
             for b, idx, r in fn.return_sites():
                 val = fn.e(r).get("val")
                 v = fn.e(fn.strip(val)) if val is not None else None
-                if v is None or v["k"] not in ("mcall", "call") or v.get("cn") != "report_error" or not v.get("args"):
+                if v is None:
                     continue
-                a = fn.e(fn.strip(v["args"][0]))
-                if a is not None and a["k"] in ("call", "mcall") and a.get("cn") == "make_error" and "kOutOfMemory" in fn.text(v["args"][0]):
+                if v["k"] in ("mcall", "call") and v.get("cn") == "report_error" and v.get("args"):
+                    a = fn.e(fn.strip(v["args"][0]))
+                elif v["k"] == "ref" and v.get("did") in {d_ for d_, _ in defs.values()}:
+                    a = v               # `return err;` - the propagated status of a call (ASMJIT_PROPAGATE)
+                else:
+                    continue
+                if a is not None and a["k"] in ("call", "mcall") and a.get("cn") == "make_error" and "kOutOfMemory" in fn.text(val):
                     continue
                 st = IN.get(b, (0, frozenset()))
                 for el in fn.blocks[b]["elems"][:idx]:
@@ -451,6 +458,11 @@ def run_label_after_validation(chk):
                         if d != a["did"] or el in creators or fn.strip(defs[el][1]) in creators:
                             continue
                         rhs = defs[el][1]
+                        rx_ = fn.e(fn.strip(rhs))
+                        if rx_ is not None and rx_["k"] in ("call", "mcall") and ALLOC_ONLY.match(rx_.get("cn") or ""):
+                            continue            # creating / growing storage can only run out of memory
+                        if v["k"] == "ref" and not (rx_ is not None and rx_["k"] in ("call", "mcall")):
+                            continue
                         if any((fn.e(j) or {}).get("k") == "ref" and (fn.e(j) or {}).get("did") in parms for j in fn.walk(rhs)):
                             validating = True
                 elif a is not None and a["k"] in ("call", "mcall") and a.get("cn") == "make_error":
